@@ -241,6 +241,8 @@ func vlbRun(bh *vlbBehaviour) (outs []vlbOut) {
 				dropResults(st.B)
 				rdr[st.B].Release()
 			case "Slice":
+				// documented: Slice = Next + a new reader + Release of this reader; what was read from the parent before ends here
+				dropResults(st.B)
 				from := rpos
 				if st.B != 1 {
 					from = spos[st.B]
